@@ -110,9 +110,6 @@ func (sr *SR) datumRename() {
 		sr.DatumCode = "nzgd49"
 	}
 	if sr.DatumCode == "wgs_1984" {
-		if sr.Name == "Mercator_Auxiliary_Sphere" {
-			sr.sphere = true
-		}
 		sr.DatumCode = "wgs84"
 	}
 	if strings.HasSuffix(sr.DatumCode, "_ferro") {
@@ -259,6 +256,14 @@ func wkt(wkt string) (*SR, error) {
 	sr.Y0 *= sr.ToMeter
 	if math.IsNaN(sr.Lat0) {
 		sr.Lat0 = sr.Lat1
+	}
+	// ESRI's web mercator works on a sphere with the radius of the WGS84
+	// semi-major axis. (This used to be decided while the datum name was read,
+	// when the PROJECTION clause, which comes after the GEOGCS, had not been
+	// seen yet: the name was never set at that point, and the projection was
+	// computed on the ellipsoid, 28 km off at latitude 41.)
+	if sr.Name == "Mercator_Auxiliary_Sphere" && sr.DatumCode == "wgs84" {
+		sr.sphere = true
 	}
 	// OGC WKT gives the central meridian of these projections as
 	// "longitude_of_center".
